@@ -112,6 +112,33 @@ Definition doc_codes (c : hcfg) (txs : list htx) : list N :=
          | 1%N => [11%N] | 2%N => [12%N] | _ => [13%N]
          end) txs.
 
+Definition sat_at (P : hrec -> option hrec -> bool) (db : list hrec) (i : nat) : bool :=
+  match nth_error db i with Some r => P r (older_of db i) | None => false end.
+
+(* the answer is right when Activated/Deactivated are read as "against the
+   previous stored record" but not by the field comments ("during the
+   transition"): the newest record on which the two readings part decides -
+   241/243 the oldest stored record (nothing to compare with: active resp.
+   inactive is enough), 242/244 a record whose predecessor in the store is not
+   the transition before it (unrecorded transitions in between) *)
+Definition doc_gap_codes (c : hcfg) (db : list hrec) (q : query) : list N :=
+  match filter (fun i => negb (Bool.eqb (sat_at (fun r _ => rec_sat c q r) db i)
+                                        (sat_at (rec_sat_rel c q) db i)))
+               (positions_desc (length db)) with
+  | [] => [249%N]
+  | i :: _ =>
+    match nth_error db i with
+    | None => [249%N]
+    | Some r =>
+      let act := negb (Bool.eqb (forallb (st_activated c r) (q_activated q))
+                                (forallb (rel_activated c r (older_of db i)) (q_activated q))) in
+      match i with
+      | 0 => if act then [241%N] else [243%N]
+      | _ => if act then [242%N] else [244%N]
+      end
+    end
+  end.
+
 Definition query_codes (c : hcfg) (db : list hrec) (o : qobs) : list N :=
   let q := qo_q o in
   match qo_res o with
@@ -122,12 +149,12 @@ Definition query_codes (c : hcfg) (db : list hrec) (o : qobs) : list N :=
     else if negb (newest_first_ok db (qo_limit o) l) then [210%N]
     else if negb (mtime_wf q) then []
     else if list_nat_eqb l (find_latest_spec c db (qo_limit o) q) then []
+    else if list_nat_eqb l (find_latest_spec_rel c db (qo_limit o) q) then doc_gap_codes c db q
     else
-      match filter (fun i => match nth_error db i with
-                             | Some r => negb (rec_sat c q r) | None => true end) l with
+      match filter (fun i => negb (sat_at (rec_sat_rel c q) db i)) l with
       | i :: _ =>
         match nth_error db i with
-        | Some r => [(200 + failing_clause c q r)%N]
+        | Some r => [(200 + failing_clause c q r (older_of db i))%N]
         | None => [210%N]
         end
       | [] => [208%N]
@@ -139,6 +166,9 @@ Definition between_codes (c : hcfg) (db : list hrec) (b : bobs) : list N :=
   | None => if (bo_kind b =? 3)%N then [224%N] else [229%N]
   | Some v =>
     if Bool.eqb v (between_spec c db (bo_kind b) (bo_state b) (bo_hs b) (bo_he b)) then []
+    else if Bool.eqb v (between_spec_rel c db (bo_kind b) (bo_state b) (bo_hs b) (bo_he b))
+    then (if (bo_kind b =? 0)%N then [245%N] else if (bo_kind b =? 2)%N then [246%N]
+          else [(220 + bo_kind b)%N])
     else [(220 + bo_kind b)%N]
   end.
 
